@@ -93,6 +93,8 @@ func init() {
 			{Name: "crash-single-client", Cfg: "clients=1,imgcap=10,cutden=25,noreopen,nosettle,wreopen=1", Gating: true, Share: 4},
 			{Name: "crash-concurrent", Cfg: "clients=3,imgcap=6,cutden=60,wrace=3,noreopen,nosettle", Gating: true, Share: 2},
 			{Name: "power-loss-single-client", Cfg: "clients=1,imgcap=10,cutden=25,noreopen,nosettle,wreopen=1,powerloss", Gating: true, Share: 2},
+			{Name: "crash-at-every-event-short-histories", Cfg: "clients=1,imgcap=400,cutden=1,maxops=10,noreopen,nosettle,nosecondcrash", Gating: true, Share: 3, ThoroughOnly: true},
+			{Name: "power-loss-at-every-event-short-histories", Cfg: "clients=1,imgcap=400,cutden=1,maxops=10,noreopen,nosettle,nosecondcrash,powerloss", Gating: true, Share: 2, ThoroughOnly: true},
 		},
 		QuickSecs: 60, ThoroughSecs: 900, MaxRunsPerProc: 100,
 		Rule:   "one case = one generated write/delete/snapshot/compaction history plus the crash images cut from it (sampled disk events, torn last write); non-trivial = at least 4 operations and one context switch; distinct = distinct hash of (operations, schedule, crash cuts)",
@@ -108,9 +110,10 @@ func init() {
 		Cfgs: []cfgSpec{
 			{Name: "types-single-client-crash", Cfg: "clients=1,wtyped=8,wdel=0,wdm=2,wread=2,wbulk=0,imgcap=8,cutden=30,nosettle", Gating: true, Share: 3},
 			{Name: "types-racing-writers", Cfg: "clients=3,wtyped=8,wdel=0,wdm=1,wread=2,wbulk=0,noreopen,nosettle", Gating: true, Share: 2},
+			{Name: "types-crash-at-every-event-short-histories", Cfg: "clients=1,wtyped=8,wdel=0,wdm=2,wread=1,wbulk=0,imgcap=400,cutden=1,maxops=10,nosettle,nosecondcrash", Gating: true, Share: 3, ThoroughOnly: true},
 			{Name: "new-field-racing-writers-crash", Cfg: "clients=3,wtyped=2,wrace=6,wdel=0,wdm=1,wread=2,wbulk=0,imgcap=12,cutden=40,noreopen,nosettle", Gating: true, Share: 4},
 		},
-		QuickSecs: 50, ThoroughSecs: 900, MaxRunsPerProc: 200,
+		QuickSecs: 75, ThoroughSecs: 900, MaxRunsPerProc: 200,
 		Rule:   "one case = one generated history of typed writes (conflicting field types), measurement drops, reads, snapshots under one seeded schedule, plus sampled crash images; non-trivial = at least 4 operations and one context switch; distinct = distinct hash of (operations, schedule, crash cuts)",
 		Probes: []string{"partial_write_expected", "cut_write_fields", "cut_torn-write_fields"},
 		Real:   engReal, Stub: engStub,
@@ -176,26 +179,32 @@ func init() {
 		Assumptions: []string{"metadata direction 'not listed when no data remains' is only demanded after a completed full-range delete (piecewise deletes keep a TSM index entry until compaction)"},
 	})
 	reg(&checkSpec{
-		ID: "C16", Harness: "store", Inst: storagePkgs, Level: "exploration", Classes: []string{"C17:resurrected", "C17:lost", "C17:phantom", "C17:stale"},
+		ID: "C16", Harness: "store", Inst: storagePkgs, Level: "exploration", Classes: []string{"C16:", "C17:resurrected", "C17:lost", "C17:phantom", "C17:stale"},
 		Cfgs: []cfgSpec{
 			{Name: "predicate-deletes", Cfg: "clients=1,wdel=8,wread=3,wmeta=0,nosettle", Gating: true, Share: 1},
 		},
 		QuickSecs: 40, ThoroughSecs: 600, MaxRunsPerProc: 150,
-		Rule:   "one case = one generated single-client history dominated by predicate deletes (conjunctions of = / != on _measurement, host, region; values with escaped spaces) followed by full reads; the set of series whose points disappear must equal the model's evaluation of the predicate; non-trivial = at least 4 operations; distinct = distinct hash of (operations, schedule)",
-		Probes: []string{"metadata_checks"},
+		Rule:   "one case = one generated single-client history dominated by predicate deletes followed by full reads. A predicate is a tree of depth <= 3 of AND / OR over = / != comparisons on _measurement, host, region and rack, built as the protobuf tree and compiled with tsm1.NewProtobufPredicate; the 12 series of the domain differ in their tag KEYS (one tag set has no region, one carries the extra tag rack) and one measurement name and several tag values need escaping (space, comma, equals sign). Two oracles: (direct) at every delete the compiled predicate and a clone of it are asked about the key of every series of the domain, built as tsdb.PredicateSeriesIDIterator builds it, and must agree with the reference evaluator; (end to end) the set of series whose points disappear must equal the evaluator's verdict (read oracle of C17). non-trivial = at least 4 operations; distinct = distinct hash of (operations incl. predicate text, schedule)",
+		Probes: []string{"predicate_direct_checks", "delete_with_or", "delete_open_corner", "metadata_checks"},
 		Real:   storeReal, Stub: engStub[:4],
-		Assumptions: []string{"the predicate language of the delete API only has AND (the parser rejects OR), so OR is not generated; the predicate space is sampled, not enumerated"},
+		Assumptions: []string{"predicates are compiled from the protobuf tree (the text parser of the delete API rejects OR); the predicate space is sampled, not enumerated",
+			"a tag the series lacks is never equal to a non-empty literal; whether it is 'not equal' to one (InfluxQL: yes, the absent tag is the empty string; null semantics: no — the implementation never lets a comparison on an absent tag become true) is left open: a (predicate, series) pair whose verdict depends on that reading is not judged by the direct oracle and the series counts as 'may or may not be deleted' end to end",
+			"comparisons with the empty literal, regular expressions and comparisons between two tags are not generated"},
 	})
 	reg(&checkSpec{
 		ID: "C42", Harness: "store", Inst: storagePkgs, Level: "exploration", Classes: []string{"C42:"},
 		Cfgs: []cfgSpec{
 			{Name: "metadata-after-histories", Cfg: "clients=2,wmeta=3", Gating: true, Share: 1},
+			{Name: "metadata-between-deletes", Cfg: "clients=1,wmeta=9,wdel=6,wread=1,noreopen,settle_s=8", Gating: true, Share: 2},
 		},
 		QuickSecs: 40, ThoroughSecs: 600, MaxRunsPerProc: 150,
-		Rule:   "one case = one generated write/delete history over 3 shards; at quiescent points (end of program, after the settle period, after reopen) MeasurementNames and TagValues over all shards are compared with the model: sorted, duplicate-free, grouped by measurement, every name of a series with live data listed, no name listed whose every series was wiped; non-trivial = at least 4 operations and one context switch",
-		Probes: []string{"metadata_checks"},
+		Rule:   "one case = one generated write/delete history over 3 shards with metadata operations: MeasurementNames, TagKeys, TagValues over all shards or a shard subset, with a condition from a bounded grammar (optional _name = 'm', optional _tagKey = 'k' [OR _tagKey = 'k2'], optional series filter tag =/!= 'v' or AND/OR of two), with no authorizer, an authorizer hiding nothing or one hiding a generated subset of the series; half of the queries repeat an earlier one (same condition before and after deletes). A query is judged when its client is alone, and every query of the program plus a fixed battery again at each quiescent point (end of program, after the settle period, after reopen): sorted, duplicate-free, grouped by measurement, every name carried by a visible series with live data (matching the condition, in the queried shards) listed, no name listed that only hidden series carry or whose every carrying series was wiped by a completed full-range delete or never written there; non-trivial = at least 4 operations and one context switch",
+		Probes: []string{"metadata_checks", "meta_values", "meta_keys", "meta_names", "meta_filtered", "meta_hiding_authorizer", "meta_shard_subset"},
 		Real:   storeReal, Stub: engStub[:4],
-		Assumptions: []string{"conditions and fine-grained authorizers are not generated yet (nil condition, nil authorizer)"},
+		Assumptions: []string{"'not listed when no data remains' is only demanded after a completed full-range delete (piecewise deletes keep a TSM index entry until compaction)",
+			"MeasurementNames with a series filter is judged only for = comparisons and ORs of them; for AND and != the implementation combines per-measurement answers of each term rather than evaluating the condition per series, and the property does not say which reading is meant",
+			"a measurement group with an empty key/value list in a TagKeys/TagValues result does not count as a returned name (the statement executor drops such groups)",
+			"conditions use InfluxQL semantics (a tag the series lacks is the empty string); empty literals, regular expressions and the 'value' pseudo-key are not generated"},
 	})
 }
 
